@@ -3,7 +3,9 @@ import numpy as np
 
 from common import Cvec, R, cfl, fl, max_rel_err
 
-LEAN_MODULES = ["PyomaVerif.Props.C02", "PyomaVerif.Props.C02C01", "PyomaVerif.Mutants.C02"]
+LEAN_MODULES = ["PyomaVerif.Props.C02", "PyomaVerif.Props.C02C01", "PyomaVerif.Mutants.C02",
+                "PyomaVerif.Props.C02Matrix", "PyomaVerif.Props.C02Results", "PyomaVerif.Props.C02Driver",
+                "PyomaVerif.Mutants.C02Results"]
 THEOREMS = [
     "PV.C02.C02_merge",
     "PV.C02.tail_merge",
@@ -34,15 +36,41 @@ THEOREMS = [
     "PV.argmaxNormSq_spec",
     "PV.setup_shape",
     "PV.shape_of_similar",
+    # the whole matrix (Model mergeModeShapes = what the driver runs and the correspondence compares)
+    "PV.C02.C02_merge_all",
+    "PV.C02.C02_merge_all_real",
+    "PV.C02.C02_merge_all_driver",
+    "PV.C02.C02_merge_all_driver_real",
+    "PV.C02.hg_needed",
+    "PV.Merge.mergeModeShapes_ok",
+    "PV.Merge.dot_self_ne_zero_of_real",
+    "PV.Merge.delete_length",
+    # merge_results (Model mergeResults / mergeGroup)
+    "PV.C02.C02_stats_group",
+    "PV.C02.C02_results_groups",
+    "PV.C02.C02_stats_results",
+    "PV.C02.C02_poser",
+    "PV.C02.C02_stats_driver",
+    "PV.C02.sqrtAt_real",
+    "PV.Mutants.C02.ddof1_wrong",
+    "PV.Mutants.C02.first_factor_wrong",
+    "PV.C02.mergeResults_ok",
+    "PV.Merge.algGroups_nodup",
+    "PV.Merge.mapE_ok_iff",
+    "PV.Merge.pvar_nonneg",
 ]
 RULE = (
     "correspondence: gen.MSF, gen.merge_mode_shapes (complex inputs as exact Gaussian rationals, 1e-10), the multi-setup "
-    "branch of gen.flatten_sns_names (exact) and MultiSetup_PoSER.merge_results statistics vs the Lean model; oracle: the "
+    "branch of gen.flatten_sns_names (exact), the exceptions of gen.merge_mode_shapes on malformed layouts (same exception "
+    "class) and the REAL MultiSetup_PoSER.merge_results (stub algorithms carrying prescribed Fn/Xi/Phi, 2..4 setups, 1..3 "
+    "groups, also duplicate names / ragged Fn / wrong ref_ind: Phi 1e-9, Fn/Xi 1e-12, Fn_cov/Xi_cov 1e-9 + 50 eps, dictionary "
+    "order and exception class exact) vs the Lean models mergeModeShapes / mergeResults; oracle: the "
     "property's domain verbatim (2..5 setups, 1..4 references anywhere and in any order, 0..5 roving, real/complex G, 1..8 "
     "modes, scale factors of either sign with magnitude in [0.05, 20]): merged vs s0*G[order] at 1e-9; names vs row order; "
     "mean / population std. distinct = (n_setups, n_ref, roving counts, complex?, ref positions)"
 )
-EXTRA_TRUSTED = ["np.std, np.mean (population standard deviation) in merge_results", "numpy fancy indexing / np.delete as mirrored by pick / delete"]
+EXTRA_TRUSTED = ["np.sqrt in np.std (the model takes sqrt as a parameter with the contract 0 <= sqrt x, sqrt x * sqrt x = x; the driver runs a "
+                 "40-digit rational square root whose contract residual is recorded)", "numpy fancy indexing / np.delete as mirrored by pick / delete"]
 ASSUMPTIONS = ["the unconjugated square sum of the reference components is bounded away from 0 (cases below 1e-3 of the squared norm are skipped)"]
 
 
@@ -162,9 +190,221 @@ def correspondence(ctx):
         xs = g.uniform(0.5, 30, size=rng.randint(2, 5))
         st = ctx.model("poser_stats", xs=[R(v) for v in xs])
         ok = abs(fl(st["mean"]) - np.mean(xs)) <= 1e-12 * np.mean(xs) and abs(fl(st["pvar"]) - np.std(xs) ** 2) <= 1e-10 * max(np.std(xs) ** 2, 1e-12)
-        ctx.corr("np.mean/np.std (merge_results)", bool(ok), {"xs": xs.tolist()}, st, [float(np.mean(xs)), float(np.std(xs) ** 2)], None)
+        ctx.corr("np.mean/np.std vs Lean mean/pvar", bool(ok), {"xs": xs.tolist()}, st, [float(np.mean(xs)), float(np.std(xs) ** 2)], None)
         if k == 0:
             ctx.sample({"rows": rows, "refs": refs, "complex": cplx, "scales_setup0": s[0].tolist()})
+    for k in range(ctx.n(40, 800)):
+        _corr_merge_results(ctx, malformed=False)
+    for k in range(ctx.n(24, 400)):
+        _corr_merge_results(ctx, malformed=True)
+    for k in range(ctx.n(30, 400)):
+        _corr_merge_malformed(ctx)
+
+
+def _exc_name(fn):
+    """(result, None) or (None, name of the exception class raised)"""
+    try:
+        return fn(), None
+    except Exception as e:  # noqa: BLE001 - the class name is the observation
+        return None, type(e).__name__
+
+
+def _model_or_error(ctx, op, **kw):
+    from common import ModelError
+
+    try:
+        return ctx.model(op, **kw), None
+    except ModelError as e:
+        return None, str(e)
+
+
+def _corr_merge_malformed(ctx):
+    """gen.merge_mode_shapes on inputs on which numpy raises: the model returns the name of the same exception"""
+    from pyoma2.functions import gen
+
+    rng = ctx.rng
+    g = ctx.nprng()
+    rows, refs, _nglob, nref = _layout(ctx)
+    nm = rng.randint(1, 4)
+    phis = [g.standard_normal((len(c), nm)) for c in rows]
+    refs = [list(r) for r in refs]
+    kind = rng.choice(["dup-ref", "ref-len", "out-of-range", "few-reflists", "mode-count", "extra-reflists", "two", "none"])
+    i = rng.randrange(len(rows))
+
+    def mutate(kind, i):
+        if i >= len(refs) and kind in ("dup-ref", "ref-len", "out-of-range"):
+            return
+        if kind == "few-reflists" and not refs:
+            return
+        if kind == "dup-ref":
+            refs[i] = refs[i] + [refs[i][0]]
+            if rng.random() < 0.5:  # same length everywhere: only the row count of the result is off
+                for j in range(len(refs)):
+                    if j != i:
+                        refs[j] = refs[j] + [refs[j][0]]
+        elif kind == "ref-len":
+            extra = [q for q in range(len(rows[i])) if q not in refs[i]]
+            if extra and rng.random() < 0.5:
+                refs[i] = refs[i] + [extra[0]]
+            elif len(refs[i]) > 1:
+                refs[i] = refs[i][:-1]
+            else:
+                refs[i] = refs[i] + [refs[i][0]]
+        elif kind == "out-of-range":
+            refs[i][rng.randrange(len(refs[i]))] = len(rows[i]) + rng.randint(0, 2)
+        elif kind == "few-reflists":
+            del refs[rng.randint(0, len(refs) - 1):]
+        elif kind == "mode-count":
+            phis[i] = g.standard_normal((len(rows[i]), nm + rng.choice([-1, 1]) if nm > 1 else nm + 1))
+        elif kind == "extra-reflists":
+            refs.append([rng.randint(0, 9)])
+
+    if kind == "two":
+        for k2 in rng.sample(["dup-ref", "ref-len", "out-of-range", "few-reflists", "mode-count"], 2):
+            mutate(k2, rng.randrange(len(rows)))
+    else:
+        mutate(kind, i)
+    impl, ierr = _exc_name(lambda: gen.merge_mode_shapes(MSarr_list=[p.copy() for p in phis], reflist=[list(r) for r in refs]))
+    m, merr = _model_or_error(ctx, "merge_mode_shapes", phis=[[Cvec(row) for row in p] for p in phis], refs=refs)
+    if ierr is None and merr is None:
+        ok = max_rel_err(np.array([[cfl(v) for v in row] for row in m]).reshape(impl.shape), impl) <= 1e-9
+    else:
+        ok = ierr == merr
+    ctx.corr("gen.merge_mode_shapes[exceptions]", bool(ok), {"phis": [p.tolist() for p in phis], "refs": refs, "kind": kind}, merr, ierr, ("mal", kind, ierr))
+    ctx.count(f"merge_malformed_{ierr or 'ok'}")
+
+
+def _real_merge_results(ctx, names, ref_ind, data):
+    """the REAL MultiSetup_PoSER.merge_results over real SingleSetup objects whose algorithms carry prescribed results:
+    data[i][ii] = (Fn, Xi, Phi) of the ii-th algorithm of setup i"""
+    from pyoma2.algorithms import FDD
+    from pyoma2.algorithms.data.result import EFDDResult
+    from pyoma2.setup import MultiSetup_PoSER, SingleSetup
+
+    setups = []
+    for i, algs_data in enumerate(data):
+        nch = max(algs_data[0][2].shape[0], 1)
+        ss = SingleSetup(np.zeros((32, nch)), fs=10.0)
+        algs = [FDD(name=f"a{i}_{ii}", nxseg=16) for ii in range(len(algs_data))]
+        ss.add_algorithms(*algs)
+        for alg, (fn_, xi_, phi_) in zip(algs, algs_data):
+            alg.result = EFDDResult(Fn=np.array(fn_), Xi=np.array(xi_), Phi=np.array(phi_))
+        setups.append(ss)
+    ms = MultiSetup_PoSER(ref_ind=[list(r) for r in ref_ind], single_setups=setups, names=list(names))
+    return ms.merge_results()
+
+
+def _corr_merge_results(ctx, malformed):
+    """MultiSetup_PoSER.merge_results (the real method, stub algorithms carrying prescribed Fn/Xi/Phi) against
+    Merge.mergeResults: 2..4 setups, 1..3 algorithm groups; every field of every merged result, dictionary order."""
+    rng = ctx.rng
+    g = ctx.nprng()
+    while True:
+        rows, refs, _nglob, nref = _layout(ctx)
+        if len(rows) <= 4:
+            break
+    nset = len(rows)
+    ngroups = rng.randint(1, 3)
+    nm = rng.randint(1, 5)
+    names = [f"grp{gi}" for gi in range(ngroups)]
+    ref_ind = [list(r) for r in refs]
+    data = [[None] * ngroups for _ in range(nset)]
+    for gi in range(ngroups):
+        cplx = rng.random() < 0.4
+        nglob = max(max(c) for c in rows) + 1
+        G = g.standard_normal((nglob, nm)) + (1j * g.standard_normal((nglob, nm)) if cplx else 0)
+        sc = np.exp(g.uniform(np.log(0.05), np.log(20), size=(nset, nm))) * g.choice([-1.0, 1.0], size=(nset, nm))
+        base_f, base_x = g.uniform(1, 20, size=nm), g.uniform(0.005, 0.05, size=nm)
+        mode = rng.choice(["wide", "near", "equal"])
+        spread = {"wide": 0.3, "near": 10.0 ** rng.uniform(-8, -3), "equal": 0.0}[mode]
+        ctx.count(f"merge_results_spread_{mode}")
+        for i in range(nset):
+            phi = G[rows[i], :] * sc[i][None, :]
+            if rng.random() < 0.5:
+                phi = phi + 0.1 * g.standard_normal(phi.shape)  # arbitrary, no common global shape
+            data[i][gi] = (base_f * (1 + spread * g.uniform(-1, 1, size=nm)), base_x * (1 + spread * g.uniform(-1, 1, size=nm)), phi)
+    kind = "ok"
+    if malformed:
+        kind = rng.choice(["dup-names", "dup-names-long-refs", "fn-len", "xi-len", "few-reflists", "mode-count", "dup-ref", "ref-len"])
+        i = rng.randrange(nset)
+        gi = rng.randrange(ngroups)
+        fn_, xi_, phi_ = data[i][gi]
+        if kind in ("dup-names", "dup-names-long-refs"):
+            if ngroups == 1:
+                kind = "fn-len"
+            else:
+                if kind == "dup-names-long-refs":
+                    # all groups share one name: they are merged as if they were further setups (setup 0's algorithms,
+                    # then setup 1's, ...); with one reference list per algorithm the real method goes through
+                    names = [names[0]] * ngroups
+                    ref_ind = [list(r) for r in ref_ind for _ in range(ngroups)]
+                else:
+                    names[rng.randrange(1, ngroups)] = names[0]
+        if kind == "fn-len":
+            data[i][gi] = (fn_[:-1] if nm > 1 else np.append(fn_, 1.0), xi_, phi_)
+        elif kind == "xi-len":
+            data[i][gi] = (fn_, np.append(xi_, 0.01), phi_)
+        elif kind == "few-reflists":
+            ref_ind = ref_ind[: rng.randint(1, nset - 1)]
+        elif kind == "mode-count":
+            data[i][gi] = (fn_, xi_, np.hstack([phi_, phi_[:, :1]]))
+        elif kind == "dup-ref":
+            ref_ind[i] = ref_ind[i] + [ref_ind[i][0]]
+        elif kind == "ref-len":
+            ref_ind[i] = ref_ind[i] + [ref_ind[i][0]]
+            for j in range(nset):
+                if j != i and rng.random() < 0.5:
+                    ref_ind[j] = ref_ind[j] + [ref_ind[j][0]]
+    # keep away from ill-conditioned scale factors (reference square sum near 0), as the property does
+    for i in range(nset):
+        for gi in range(ngroups):
+            p = np.asarray(data[i][gi][2])
+            r = [q for q in (ref_ind[i] if i < len(ref_ind) else []) if q < p.shape[0]]
+            if r and not np.all(np.abs((p[r, :] * p[r, :]).sum(axis=0)) > 1e-3 * (np.abs(p[r, :]) ** 2).sum(axis=0)):
+                ctx.skipped += 1
+                return
+    impl, ierr = _exc_name(lambda: _real_merge_results(ctx, names, ref_ind, data))
+    m, merr = _model_or_error(
+        ctx, "poser_merge_results", names=names, ref_ind=ref_ind,
+        setups=[[{"Fn": [R(v) for v in a[0]], "Xi": [R(v) for v in a[1]], "Phi": [Cvec(row) for row in a[2]]} for a in algs] for algs in data],
+    )
+    inp = {"names": names, "ref_ind": ref_ind, "kind": kind,
+           "data": [[{"Fn": a[0].tolist(), "Xi": a[1].tolist(), "Phi": [[str(v) for v in row] for row in np.asarray(a[2]).tolist()]} for a in algs] for algs in data]}
+    fn = "MultiSetup_PoSER.merge_results" + ("[malformed]" if malformed else "")
+    if ierr is not None or merr is not None:
+        ctx.corr(fn, ierr == merr, inp, merr, ierr, ("mr-exc", kind, ierr))
+        ctx.count(f"merge_results_{ierr or 'ok'}")
+        return
+    ok = [k_ for k_ in impl.keys()] == [e[0] for e in m]
+    worst = 0.0
+    if ok:
+        eps = np.finfo(float).eps
+        for name, res in m:
+            real = impl[name]
+            Phi = np.array([[cfl(v) for v in row] for row in res["Phi"]]).reshape(np.asarray(real.Phi).shape) if np.asarray(real.Phi).size == sum(len(r_) for r_ in res["Phi"]) else None
+            ok = ok and Phi is not None and max_rel_err(Phi, real.Phi) <= 1e-9
+            for key, tol_abs in (("Fn", 0.0), ("Xi", 0.0), ("Fn_cov", 50 * eps), ("Xi_cov", 50 * eps)):
+                a = np.array([fl(v) for v in res[key]])
+                b = np.asarray(getattr(real, key), dtype=float)
+                rtol = 1e-12 if tol_abs == 0.0 else 1e-9
+                good = a.shape == b.shape and bool(np.all(np.abs(a - b) <= tol_abs + rtol * np.abs(b)))
+                if a.shape == b.shape and a.size:
+                    worst = max(worst, float(np.max(np.abs(a - b) / (tol_abs + rtol * np.abs(b) + 1e-300))))
+                ok = ok and good
+            # contract of the driver's square root, on the model's own output: (Fn_cov*Fn)^2 = population variance
+            from fractions import Fraction
+
+            gi_list = [ii for ii, n_ in enumerate(names) if n_ == name]
+            stack = [[Fraction(float(v)) for v in data[i][ii][0]] for i in range(len(data)) for ii in gi_list]
+            for kk in range(len(res["Fn"])):
+                col = [row[kk] for row in stack]
+                mu = sum(col) / len(col)
+                var = sum((v - mu) ** 2 for v in col) / len(col)
+                got = (Fraction(res["Fn_cov"][kk]) * Fraction(res["Fn"][kk])) ** 2
+                ctx.contract("rat_sqrt", float(abs(got - var) / var) if var else float(abs(got)), 1e-30, "driver sqrt: (Fn_cov*Fn)^2 vs exact population variance")
+    ctx.dist["margin_merge_results_fraction_of_tolerance"] = max(ctx.dist.get("margin_merge_results_fraction_of_tolerance", 0.0), worst)
+    ctx.corr(fn, bool(ok), inp, None, None, ("mr", nset, ngroups, nm, nref, kind))
+    ctx.count("merge_results_ok")
 
 
 def _poser_with_stub_results(ctx, rows, refs, groups):
